@@ -75,6 +75,9 @@ func openFileToReader(filename string, gunzip bool) (io.ReadCloser, error) {
 		}
 	}
 
+	if zfile, ok := file.(*gzip.Reader); ok {
+		file = gunzipFile{zfile, baseFile}
+	}
 	return file, nil
 }
 
